@@ -78,6 +78,14 @@ Definition same_class (a b : val) : Prop :=
   | _, _ => False
   end.
 
+(* equality of two field values, stated with the model's own == on the values:
+   used by the one-level characterisation C10_eq_iff_attrs *)
+Definition field_eq (ct : ctable) (n : nat) (u v : val) : Prop :=
+  match u, v with
+  | VMeth f _, VMeth g _ => f = g
+  | _, _ => py_eq ct n u v = Ok true
+  end.
+
 (* ------------------------------------------------------------------ well-formedness *)
 Definition is_key (v : val) : bool :=     (* hashable scalars used as dict keys *)
   match v with
